@@ -408,7 +408,8 @@ func (w *worker) exec(cs *acase, o *oracle) (er execResult) {
 			}
 			trimOracle(o, before, after, oldTrim, terr == nil, t0, t1)
 			emit(fmt.Sprintf("T:%d", now), res)
-			// what Trim removed is "trimmed" in the sense of C05
+			// an entry stored by a Put of this history (i.e. within the last five days) and not aged or damaged since
+			// must survive the trim: index file and output file
 			gone := map[string]bool{}
 			for _, b := range before {
 				gone[b.name] = true
@@ -416,11 +417,21 @@ func (w *worker) exec(cs *acase, o *oracle) (er execResult) {
 			for _, a := range after {
 				delete(gone, a.name)
 			}
-			for n := range gone {
-				for id, spec := range valid {
-					if n == relName(cacheIDs[id], "a") || n == relName(sha256.Sum256(contentBytes(spec)), "d") {
-						delete(valid, id)
-					}
+			var vids []int
+			for id := range valid {
+				vids = append(vids, id)
+			}
+			sort.Ints(vids)
+			for _, id := range vids {
+				o.checked("C13", 1)
+				an, dn := relName(cacheIDs[id], "a"), relName(sha256.Sum256(contentBytes(valid[id])), "d")
+				switch {
+				case gone[dn] && !gone[an]:
+					o.violate("C13", fmt.Sprintf("Trim removed the output file %s of entry %d stored by a successful Put moments ago (the Put re-used the existing file without refreshing its mtime)", dn, id), "put-reuse-not-refreshed")
+					delete(valid, id)
+				case gone[dn] || gone[an]:
+					o.violate("C13", fmt.Sprintf("Trim removed files of entry %d stored by a successful Put moments ago", id), "trim-removes-stored")
+					delete(valid, id)
 				}
 			}
 			// "looking an entry up refreshes it so that it survives the next trim": probe (the probes are operations of the history too)
@@ -777,6 +788,16 @@ func genTrimCase(r *rand.Rand, contents []string, nIDs int) *acase {
 			cs.Ops = append(cs.Ops, aop{K: "w", Name: foreignNames[r.Intn(len(foreignNames))], Content: xspec([]byte("keep")), AgeNS: trimAges(r)})
 		}
 	}
+	// now and then an output that is already there (possibly aged) is stored again, under the same or another id
+	var stored []string
+	for _, op := range cs.Ops {
+		if op.K == "P" {
+			stored = append(stored, op.Content)
+		}
+	}
+	if len(stored) > 0 && r.Intn(3) == 0 {
+		cs.Ops = append(cs.Ops, aop{K: []string{"P", "Q"}[r.Intn(2)], ID: r.Intn(nIDs), Content: stored[r.Intn(len(stored))]})
+	}
 	// the last-trim record
 	switch r.Intn(16) {
 	case 0: // missing
@@ -794,7 +815,7 @@ func genTrimCase(r *rand.Rand, contents []string, nIDs int) *acase {
 	default:
 		// a parseable record relative to now: recent, old, future by 59 / 61 minutes …
 		d := []int64{0, 10 * s, hourNS, 23 * hourNS, dayNS - 10*s, dayNS + 10*s, 2 * dayNS, 400 * dayNS, -10 * s, -59 * 60 * s, -61 * 60 * s, -hourNS + 10*s, -hourNS - 10*s, -dayNS}[r.Intn(14)]
-		pad := []string{"%d", "%d\n", " %d ", "\t%d\r\n", "+%d", "00%d", " %d "}[r.Intn(7)]
+		pad := []string{"%d", "%d\n", " %d ", "\t%d\r\n", "+%d", "00%d", "\u0085%d\u00a0", "\u3000%d\u2003\n"}[r.Intn(8)]
 		cs.Ops = append(cs.Ops, aop{K: "w", Name: "trim.txt", Content: "@rec" + pad, AgeNS: d})
 	}
 	// lookups before the trim
@@ -927,7 +948,7 @@ func runCache(tier string, seed int64, model string, replay string) *corr.Result
 	contents := []string{"x-", "x41", "x4142", "g70000.3"}
 	nIDs := 3
 	if !quick {
-		nHist, nTrim, nParseRandom = 40000, 25000, 30000
+		nHist, nTrim, nParseRandom = 100000, 40000, 30000
 	}
 	if os.Getenv("VERIF_SEARCH") != "" && quick {
 		nHist, nTrim = 6000, 4000
@@ -935,7 +956,14 @@ func runCache(tier string, seed int64, model string, replay string) *corr.Result
 
 	// ---- cases
 	var cases []*acase
-	if replay != "" {
+	var replayParse [][2]string // (id hex, data hex)
+	if strings.HasPrefix(replay, "parse ") {
+		f := strings.Fields(replay)
+		if len(f) == 3 {
+			replayParse = append(replayParse, [2]string{f[1], f[2]})
+		}
+		nHist, nTrim = 0, 0
+	} else if replay != "" {
 		var cs acase
 		if err := json.Unmarshal([]byte(replay), &cs); err != nil {
 			res.Observations = append(res.Observations, "replay: cannot decode case: "+err.Error())
@@ -944,7 +972,7 @@ func runCache(tier string, seed int64, model string, replay string) *corr.Result
 		}
 		cases = append(cases, &cs)
 		nParseRandom = 0
-	} else {
+	} else if len(replayParse) == 0 {
 		// corpus: the scripted timeline of TestCacheTrim-like shape and two repair witnesses
 		cases = append(cases,
 			&acase{Kind: "hist", Ops: []aop{{K: "P", ID: 0, Content: "g70000.3"}, {K: "t", Name: "@dg70000.3", N: 100}, {K: "B", ID: 0}, {K: "F", ID: 0}, {K: "P", ID: 1, Content: "g70000.3"}, {K: "B", ID: 0}, {K: "F", ID: 0}}},
@@ -952,6 +980,9 @@ func runCache(tier string, seed int64, model string, replay string) *corr.Result
 			&acase{Kind: "hist", Ops: []aop{{K: "P", ID: 0, Content: "x41"}, {K: "t", Name: "@dx41", N: 1000020}, {K: "F", ID: 0}, {K: "P", ID: 2, Content: "x41"}, {K: "F", ID: 0}, {K: "B", ID: 2}}},
 			&acase{Kind: "trim", Ops: []aop{{K: "P", ID: 0, Content: "x41"}, {K: "m", Name: "@a0", AgeNS: 6 * dayNS}, {K: "m", Name: "@dx41", AgeNS: 6 * dayNS}, {K: "B", ID: 0}, {K: "T"}, {K: "B", ID: 0}}},
 			&acase{Kind: "trim", Ops: []aop{{K: "P", ID: 0, Content: "x41"}, {K: "m", Name: "@a0", AgeNS: 6 * dayNS}, {K: "m", Name: "@dx41", AgeNS: 6 * dayNS}, {K: "T"}, {K: "B", ID: 0}}},
+			// regression (fixed in /repo e29dd81): a Put that re-uses a six-day-old output file must refresh it, or the trim removes what was just stored
+			&acase{Kind: "trim", Ops: []aop{{K: "Q", ID: 0, Content: "x68656c6c6f"}, {K: "m", Name: "@a0", AgeNS: 6 * dayNS}, {K: "m", Name: "@dx68656c6c6f", AgeNS: 6 * dayNS}, {K: "Q", ID: 1, Content: "x68656c6c6f"}, {K: "T"}, {K: "B", ID: 1}, {K: "F", ID: 1}}},
+			&acase{Kind: "trim", Ops: []aop{{K: "P", ID: 0, Content: "x-"}, {K: "m", Name: "@dx-", AgeNS: 400 * dayNS}, {K: "P", ID: 2, Content: "x-"}, {K: "T"}, {K: "F", ID: 2}, {K: "B", ID: 2}}},
 		)
 		for i := 0; i < nHist; i++ {
 			cs, ni := contents, nIDs
@@ -1015,6 +1046,11 @@ func runCache(tier string, seed int64, model string, replay string) *corr.Result
 			return res
 		}
 		pids, pdatas := parseCases(r, nParseRandom)
+		if len(replayParse) > 0 {
+			var id [32]byte
+			copy(id[:], corr.Unhx(replayParse[0][0]))
+			pids, pdatas = [][32]byte{id}, [][]byte{corr.Unhx(replayParse[0][1])}
+		}
 		seen := map[string]bool{}
 		for i := range pids {
 			if seen[string(pdatas[i])] {
